@@ -11,6 +11,7 @@ package capnp
 //@ 	return off&7 == 0 && M(off)+n <= M(len(seg.data)) && M(len(seg.data)) < M(off)+n+8 &&
 //@ 		forall(int(off), len(seg.data), func(j int) bool { return seg.data[j] == 0 })
 //@ }
+//@ func atOldU64(f func() uint64) uint64 { panic("spec") }
 //@ func wordsOf(sz ObjectSize) M { return M(sz.DataSize)>>3 + M(sz.PointerCount) }
 //@ func words32(sz ObjectSize) int32 { return int32(sz.DataSize>>3) + int32(sz.PointerCount) }
 //@ end
@@ -28,6 +29,8 @@ package capnp
 //@   requires s != nil && M(addr)+8 <= M(len(s.data)) && M(len(s.data)) <= mMaxSeg()
 //@   ensures LE64(s.data, int(addr)) == uint64(val)
 //@   ensures bytesUnchangedExcept(s.data, int(addr), int(addr)+8)
+//@   -- (instance of the frame, stated outright for the two-word landing pad: the word before is kept)
+//@   ensures prevword: implies(addr >= 8, LE64(s.data, int(addr)-8) == atOldU64(func() uint64 { return LE64(s.data, int(addr)-8) }))
 
 //@ func ObjectSize.isValid -> r
 //@   props C05
